@@ -436,8 +436,8 @@ def rule_f(ctx: Ctx) -> None:
         rets = [r for r in f.node.body if isinstance(r, ast.Return)]
         if rets:
             modes['_'] = text(rets[-1].value)
-    ok = 'replace' in modes and 'collapse' in modes and '.strip()' in modes['collapse'] and '.sub(' in modes['collapse'] \
-        and '.sub(' in modes['replace'] and '.strip()' not in modes['replace'] and modes.get('_') == 'text'
+    ok = 'replace' in modes and 'collapse' in modes and '.strip(' in modes['collapse'] and '.sub(' in modes['collapse'] \
+        and '.sub(' in modes['replace'] and '.strip(' not in modes['replace'] and modes.get('_') == 'text'
     ctx.ob(rule, 'normalize(): replace substitutes, collapse substitutes and strips, preserve returns the text', f.loc(), ok,
            '' if ok else f'found {modes}', key='XsdSimpleType.normalize|modes')
     c = ctx.idx.cls(f'{ST}.XsdSimpleType')
@@ -778,4 +778,87 @@ def rule_n(ctx: Ctx) -> None:
     ctx.explain('C02.n: in utils.decoding.count_digits a `return 0, 0` guarded by a test on `significand` exists and both returns that use `exponent` are control dependent on that test.')
 
 
-RULES = [rule_a, rule_b, rule_c, rule_d, rule_e, rule_f, rule_g, rule_h, rule_i, rule_j, rule_k, rule_l, rule_m, rule_n]
+XML_WS = frozenset(' \t\n\r')
+
+
+def _regex_chars(pattern: str):
+    """the set of characters a whitespace pattern can consume, from its parse tree (None when a category such as \\s - Unicode-wide for str patterns - occurs)."""
+    import re._parser as rp     # the regex AST of the standard library
+    out: set = set()
+
+    def walk(items) -> bool:
+        for op, av in items:
+            name = str(op)
+            if name == 'LITERAL':
+                out.add(chr(av))
+            elif name == 'IN':
+                for o2, a2 in av:
+                    n2 = str(o2)
+                    if n2 == 'LITERAL':
+                        out.add(chr(a2))
+                    elif n2 == 'RANGE':
+                        if a2[1] - a2[0] > 64:
+                            return False
+                        out.update(chr(c) for c in range(a2[0], a2[1] + 1))
+                    else:
+                        return False        # CATEGORY, NEGATE
+            elif name in ('MAX_REPEAT', 'MIN_REPEAT'):
+                if not walk(av[2]):
+                    return False
+            elif name == 'SUBPATTERN':
+                if not walk(av[3]):
+                    return False
+            elif name == 'BRANCH':
+                if not all(walk(b) for b in av[1]):
+                    return False
+            else:
+                return False                # CATEGORY (\\s), ANY, ...
+        return True
+    return out if walk(rp.parse(pattern)) else None
+
+
+def rule_o(ctx: Ctx) -> None:
+    """The whiteSpace facet knows four characters: #x20, #x9, #xA, #xD.  NO-BREAK SPACE, EM SPACE and the other Unicode spaces are ordinary characters
+    of a value: they count for length, make an integer or boolean literal invalid and do not separate list items.  Python's `\\s`, str.strip() and
+    str.split() without arguments are Unicode-wide, so the normalisation and the list splitting spell the characters out."""
+    rule = 'C02.o'
+    idx = ctx.idx
+    c = idx.cls('xmlschema.validators.simple_types.XsdSimpleType')
+    nf = c.find_method('normalize')
+    ctx.analysed(nf.qualname)
+    used = sorted({x.attr for x in ast.walk(nf.node) if isinstance(x, ast.Attribute) and isinstance(x.value, ast.Name) and x.value.id == 'self' and 'REGEX' in x.attr.upper()})
+    ctx.floor(rule, 'whitespace patterns used by XsdSimpleType.normalize', len(used), 2)
+    for a in used:
+        hit = c.find_attr(a)
+        pat = None
+        if hit is not None:
+            node = hit[1]
+            v = node if isinstance(node, ast.Call) else getattr(node, 'value', None)
+            if isinstance(v, ast.Call) and text(v.func) == 're.compile' and v.args and isinstance(v.args[0], ast.Constant) and isinstance(v.args[0].value, str):
+                pat = v.args[0].value
+        if pat is None:
+            raise AnalysisError(f'UNRECOGNISED-IDIOM {rule}: pattern of {a}')
+        chars = _regex_chars(pat)
+        ok = chars is not None and chars <= XML_WS
+        ctx.ob(rule, f'XsdSimpleType.{a} = {pat!r} consumes XML whitespace only', f'{c.module.relpath}:{hit[1].lineno}', ok,
+               '' if ok else ('the pattern contains a character class escape (\\s is Unicode-wide for str)' if chars is None else f'also consumes {sorted(chars - XML_WS)!r}') +
+               ": '\\u00a0abc\\u2003' is collapsed to 'abc' - accepted by a token of length 3, '\\u00a0true' is a boolean", key=f'normalize|pattern|{a}')
+    # no Unicode-wide strip()/split() on the value in normalize and in the list splitter
+    n = 0
+    for q in ('xmlschema.validators.simple_types.XsdSimpleType.normalize', 'xmlschema.validators.simple_types.XsdList.raw_decode'):
+        f = idx.func(q)
+        ctx.analysed(q)
+        for cl in calls(f.node):
+            if isinstance(cl.func, ast.Attribute) and cl.func.attr in ('strip', 'lstrip', 'rstrip', 'split') and \
+                    any(isinstance(y, ast.Call) and isinstance(y.func, ast.Attribute) and y.func.attr in ('sub', 'normalize') for y in ast.walk(cl.func.value)):
+                n += 1
+                ok = bool(cl.args) and isinstance(cl.args[0], ast.Constant) and isinstance(cl.args[0].value, str) and set(cl.args[0].value) <= XML_WS
+                ctx.ob(rule, f'{q.split(".", 3)[-1]}: `{text(cl)[-40:]}` names the XML whitespace characters', f.loc(cl), ok,
+                       '' if ok else f"`.{cl.func.attr}()` without arguments is Unicode-wide: '1\\u00a02' is split into two list items / a NO-BREAK SPACE at the ends is stripped",
+                       key=f'{q}|{cl.func.attr}')
+    ctx.floor(rule, 'strip/split calls on the normalised value', n, 2)
+    ctx.explain('C02.o: the regex ASTs (re._parser) of the patterns XsdSimpleType.normalize substitutes contain only literals / sets within {#x20, #x9, #xA, #xD} - no category '
+                'escape; strip()/split() applied to the normalised value in normalize and XsdList.raw_decode carry an explicit argument within the same set.')
+
+
+RULES = [rule_a, rule_b, rule_c, rule_d, rule_e, rule_f, rule_g, rule_h, rule_i, rule_j, rule_k, rule_l, rule_m, rule_n, rule_o]
